@@ -155,20 +155,25 @@ theorem C10_evaluable_at_knots [IsStrictOrderedRing K] [FloorRing K] {o : Obj K}
 
 /-! ## The basis constructor -/
 
-/-- **The constructor rejects exactly**: order `< 1`, fewer than `2p` knots, a periodic vector one of whose
-    `p + k - 1` compared end spacings differs by more than the tolerance (`CtorPerMismatch`: the test AS
-    CODED, `|(τ[i+1]-τ[i]) - (τ[-p-k+i]-τ[-p-k-1+i])| > tol` for `i < p+k-1`), or a spacing that decreases
-    by more than the tolerance (`CtorDecreasing`); the exception is always `ValueError`. -/
+/-- **The constructor rejects exactly**: order `< 1`, fewer than `2p` knots, a periodic vector with fewer than
+    the `p + k + 1` entries the end comparison reads (`CtorShortPeriodic`; since the fix of finding
+    `constructor-indexerror-short-periodic` a `ValueError` like the others, before it an `IndexError`), a
+    periodic vector one of whose `p + k - 1` compared end spacings differs by more than the tolerance
+    (`CtorPerMismatch`: the test AS CODED, `|(τ[i+1]-τ[i]) - (τ[-p-k+i]-τ[-p-k-1+i])| > tol` for `i < p+k-1`),
+    or a spacing that decreases by more than the tolerance (`CtorDecreasing`); the exception is always
+    `ValueError`. -/
 theorem C10_constructor_rejects (p : ℕ) (τ : Array K) (k : Int) (tol : K) :
     Basis.mk? p τ k tol = .error .value ↔
-      p < 1 ∨ τ.size < 2 * p ∨ Basis.CtorPerMismatch p τ (max k (-1)) tol ∨ Basis.CtorDecreasing τ tol :=
+      p < 1 ∨ τ.size < 2 * p ∨ Basis.CtorShortPeriodic p τ (max k (-1)) ∨
+        Basis.CtorPerMismatch p τ (max k (-1)) tol ∨ Basis.CtorDecreasing τ tol :=
   Basis.mk?_error_iff p τ k tol
 
 /-- Every other input is accepted and stored unchanged (`periodic` clipped at `-1`); there is no third
     outcome. -/
 theorem C10_constructor_accepts_otherwise (p : ℕ) (τ : Array K) (k : Int) (tol : K) :
     (Basis.mk? p τ k tol = .ok { order := p, knots := τ, periodic := max k (-1) } ↔
-      ¬ (p < 1 ∨ τ.size < 2 * p ∨ Basis.CtorPerMismatch p τ (max k (-1)) tol ∨ Basis.CtorDecreasing τ tol))
+      ¬ (p < 1 ∨ τ.size < 2 * p ∨ Basis.CtorShortPeriodic p τ (max k (-1)) ∨
+          Basis.CtorPerMismatch p τ (max k (-1)) tol ∨ Basis.CtorDecreasing τ tol))
     ∧ (Basis.mk? p τ k tol = .error .value ∨
         Basis.mk? p τ k tol = .ok { order := p, knots := τ, periodic := max k (-1) }) :=
   ⟨Basis.mk?_ok_iff p τ k tol, Basis.mk?_cases p τ k tol⟩
@@ -592,7 +597,11 @@ example : Basis.mk? 2 #[(0 : ℚ), 0, 1] (-1) C10_tol = .error .value :=
   (C10_constructor_rejects 2 _ _ _).2 (Or.inr (Or.inl (by decide)))
 
 example : Basis.mk? 2 #[(0 : ℚ), 1, 1/2, 2] (-1) C10_tol = .error .value :=
-  (C10_constructor_rejects 2 _ _ _).2 (Or.inr (Or.inr (Or.inr ⟨1, by decide, by norm_num [C10_tol]⟩)))
+  (C10_constructor_rejects 2 _ _ _).2 (Or.inr (Or.inr (Or.inr (Or.inr ⟨1, by decide, by norm_num [C10_tol]⟩))))
+
+/-- the repaired corner: `BSplineBasis(2, [0,0,1,1], 5)` is rejected with `ValueError` (`CtorShortPeriodic`). -/
+example : Basis.mk? 2 #[(0 : ℚ), 0, 1, 1] 5 C10_tol = .error .value :=
+  (C10_constructor_rejects 2 _ _ _).2 (Or.inr (Or.inr (Or.inl ⟨by decide, by decide⟩)))
 
 /-- `C10_accessors_consistent`, `C10_reconstructible`, `C10_evaluable_at_knots` on the concrete rational curve
     (6 control points; evaluation at the corners `start = 0`, `end = 3` and at the double knot `2`). -/
